@@ -573,10 +573,31 @@ func (in *Interp) bytesOfString(s *smt.Term) Value {
 	return in.SymBytesOfStr(s)
 }
 
+// BLen is the byte length of a blob content term as a signed 64-bit value: an uninterpreted function
+// (kept apart from str.len so that length reasoning stays in the bit-vector theory).
+func BLen(s *smt.Term) *smt.Term {
+	if s.Const {
+		return smt.BV(uint64(len(s.Str)), 64)
+	}
+	return smt.UF("blen", []string{"String"}, &smt.Term{K: smt.KBV, W: 64}, s)
+}
+
 // SymBytesOfStr wraps an SMT string as an (immutable-content) byte slice.
 func (in *Interp) SymBytesOfStr(s *smt.Term) *SliceV {
-	n := smt.StrLenBV(s)
+	n := BLen(s)
+	if !n.Const {
+		in.assumeOnce(smt.BVSle(smt.BV(0, 64), n))
+	}
 	return &SliceV{SB: &SymBytes{Buf: &SymBuf{Str: s}, Off: smt.BV(0, 64), Len: n, Cap: n}}
+}
+
+func (in *Interp) assumeOnce(c *smt.Term) {
+	for _, p := range in.PC {
+		if p.S == c.S {
+			return
+		}
+	}
+	in.Assume(c)
 }
 
 // StrOfBytes returns the content of a byte slice as an SMT string term.
@@ -584,7 +605,7 @@ func (in *Interp) stringOfBytes(s *SliceV) *smt.Term {
 	if s.SB != nil {
 		sb := s.SB
 		if sb.Buf.Str != nil {
-			if sb.Off.Const && sb.Off.U == 0 && sb.Len.S == smt.StrLenBV(sb.Buf.Str).S {
+			if sb.Off.Const && sb.Off.U == 0 && sb.Len.S == BLen(sb.Buf.Str).S {
 				return sb.Buf.Str
 			}
 			return smt.StrSubstr(sb.Buf.Str, smt.BV2Int(sb.Off), smt.BV2Int(sb.Len))
